@@ -240,7 +240,7 @@ def eval_read(r, m):
         corr = "agree"
         if has_unmodelled(m):
             corr = "unmodelled"
-        elif r.get("consume") == "next" and m.get("iter_exc") == "ValueError":
+        elif r.get("consume") in filecases.UNCHECKED_STYLES and m.get("iter_exc") == "ValueError":
             corr = "unmodelled"     # the model reads as a for loop does (order enforced); next(reader) bypasses the order check
         elif m != i:
             from .. import colcases
@@ -261,7 +261,7 @@ GIVEN_NAMES = [["c1", "c2", "c3", "c4"], ["a", "b", "c", "d"], c09.UNTYPED, ["x"
 def gen_how(rng, lines, via=None):
     """A factory, a consumption style and (sometimes) a scheme given by the caller for reading `lines`: keyword arguments of request()."""
     via = via or rng.choice(filecases.READER_VIAS)
-    kw = {"via": via, "consume": rng.choice(["for", "for", "iter", "next"])}
+    kw = {"via": via, "consume": rng.choice(["for", "for", "iter", "next", "method", "iter-method"])}
     if via in ("path", "gz"):
         kw["text"] = filecases.text_of(rng, lines)
     k = rng.random()
@@ -438,7 +438,7 @@ def replay_case(ctx, failure):
               "gz": "MafReader.reader_from(<.gz file of %d characters, %d physical lines>" % (len(how.get("text", "")), len(lines))}[via]
     given = ", scheme=<%s>" % how["given"] if "given" in how else ", scheme=NoRestrictionsScheme(%s)" % how["given_norestrict"] if "given_norestrict" in how else ""
     print("executed: %s, validation_stringency=%s%s), then consumed to the end with %s" % (
-        opened, mode, given, {"for": "a for loop", "iter": "iter(reader) and next() on it", "next": "next(reader)"}[style]))
+        opened, mode, given, filecases.STYLE_TEXT[style]))
     if "text" in how:
         print("  file text: %r" % how["text"][:300])
     for n, l in enumerate(lines[:12], start=1):
